@@ -338,7 +338,8 @@ impl SemType {
 pub enum MemoEmpty {
     True,
     False(IsEmptyStatus),
-    Undefined,
+    // still being computed; carries its depth on the stack of computations in progress
+    Undefined(usize),
 }
 
 impl MemoEmpty {
@@ -371,6 +372,11 @@ pub struct SemTypeContext {
     pub list_runtype_ref_memo: BTreeMap<RuntypeUUID, usize>,
     pub map_runtype_ref_memo: BTreeMap<RuntypeUUID, usize>,
     pub set_runtype_ref_memo: BTreeMap<RuntypeUUID, usize>,
+
+    // number of emptiness computations in progress
+    pub memo_depth: usize,
+    // the outermost computation in progress whose emptiness was assumed since the innermost one started
+    pub memo_lowest_assumed: usize,
 }
 impl Default for SemTypeContext {
     fn default() -> Self {
@@ -427,7 +433,31 @@ impl SemTypeContext {
             list_runtype_ref_memo: BTreeMap::new(),
             map_runtype_ref_memo: BTreeMap::new(),
             set_runtype_ref_memo: BTreeMap::new(),
+            memo_depth: 0,
+            memo_lowest_assumed: usize::MAX,
         }
+    }
+
+    /// A loop reached the computation in progress at `depth`: it is assumed empty.
+    pub fn memo_assume_empty(&mut self, depth: usize) {
+        self.memo_lowest_assumed = self.memo_lowest_assumed.min(depth);
+    }
+    /// Starts an emptiness computation; returns its depth and the caller's assumption mark.
+    pub fn memo_enter(&mut self) -> (usize, usize) {
+        let depth = self.memo_depth;
+        self.memo_depth += 1;
+        let outer = std::mem::replace(&mut self.memo_lowest_assumed, usize::MAX);
+        (depth, outer)
+    }
+    /// Ends an emptiness computation. Returns whether the result may be kept: "empty" that rests on the assumption
+    /// that a computation still in progress is empty is only true if that assumption holds up, so it is not kept.
+    /// ("Not empty" is kept always: assuming emptiness can only make more types empty.)
+    pub fn memo_leave(&mut self, (depth, outer): (usize, usize), is_empty: bool) -> bool {
+        self.memo_depth = depth;
+        let assumed = self.memo_lowest_assumed;
+        let rests_on_outer = is_empty && assumed < depth;
+        self.memo_lowest_assumed = if rests_on_outer { outer.min(assumed) } else { outer };
+        !rests_on_outer
     }
     pub fn number_const(value: NumberRepresentationOrFormat) -> SemType {
         SemType::new_complex(
